@@ -4,7 +4,7 @@ from .. import forest as FO
 
 ID = "C10"
 LEAN_MODULE = "Ucfg.Props.C10"
-LEVEL_TEXT = 'Identity-level heap model: a copy only allocates (every existing node identical afterwards: source untouched), is made of new nodes that do not point into the old heap (nothing shared), carries the requested context; list merges likewise; in-place writes are local. Merge AS A WHOLE (model function mergeH, every list policy, any depth; the function the driver runs histories through): a merge whose destination lies outside a separated set of nodes - the source tree, any third config - leaves every node of the set identical and nothing outside points into it afterwards (merge_leaves_separated_untouched, by a partition invariant carried through the three mutually recursive merge functions; merges_leave_separated_untouched for any sequence; merge_into_copy_leaves_everything_else). PARTIAL: the normalisation NewFrom applies to of the source value is driver glue; steps with references, nulls meeting objects or dotted source keys are unmodelled and decided by the fingerprint oracles (coverage.history_steps in the evidence counts the compared steps).'
+LEVEL_TEXT = 'Identity-level heap model: a copy only allocates (every existing node identical afterwards: source untouched), is made of new nodes that do not point into the old heap (nothing shared), carries the requested context; list merges likewise; in-place writes are local. Merge AS A WHOLE (model function mergeH, every list policy, any depth; the function the driver runs histories through): a merge whose destination lies outside a separated set of nodes - the source tree, any third config - leaves every node of the set identical and nothing outside points into it afterwards (merge_leaves_separated_untouched, by a partition invariant carried through the three mutually recursive merge functions; merges_leave_separated_untouched for any sequence; merge_into_copy_leaves_everything_else). NewFrom and Merge of a source VALUE (Src: plain data with configs embedded anywhere; buildH, mergeSrcH, newFromH) leave every node that existed identical (newFrom_leaves_everything_untouched, mergeSrc_leaves_separated_untouched; buildH_ok by mutual induction over the source). PARTIAL: steps with references, nulls meeting objects or dotted source keys are unmodelled and decided by the fingerprint oracles (coverage.history_steps in the evidence counts the compared steps).'
 CORRESPONDENCE = ("Model/Forest.lean (heap of nodes with stored contexts: cpy, appendCpy, setAt, delAt, SetValue, attach, storedPath) composed by "
                   "Driver/ForestDrv.lean ~ histories over several configs dumped after every step through VerifFingerprint (build tag verif): node "
                   "identities up to renaming, stored parents and names, values, Path(), Parent()")
